@@ -77,3 +77,17 @@ Theorem C15_driver_ids_present_nonempty_distinct : forall src t, bytes_ok src ->
              Forall (fun r => r <> [] /\ forallb id_char r = true) rs.
 Proof. exact ParseTreeH_ids_ok. Qed.
 Print Assumptions C15_driver_ids_present_nonempty_distinct.
+
+(* ---------------- and for all four option sets of the heading option model (WithAttribute with
+   and without WithAutoHeadingID included): for EVERY source the tree is well formed, the
+   conversion returns, safe-mode output is inert (proofs/HeadingOptsWf*.v, 41 files, 14.3 k lines:
+   the block range and totality proofs ported to the driver copy, the attribute parser proved
+   total - its first fuel formula was not enough for nested arrays and was corrected -, headings
+   whose last line segment becomes empty when an attribute block is cut off) *)
+Require Import GM.proofs.HeadingOptsWf.
+Theorem C15_heading_options_tree_wf : forall hc src t, bytes_ok src -> ParseTreeH hc src = Ok t -> wf_tree src t = true.
+Proof. exact ParseTreeH_wf. Qed.
+Print Assumptions C15_heading_options_tree_wf.
+Theorem C15_heading_options_convert_total : forall hc c src, bytes_ok src -> exists o, ConvertModelH hc c src = Ok o.
+Proof. exact ConvertModelH_total. Qed.
+Print Assumptions C15_heading_options_convert_total.
